@@ -477,9 +477,10 @@ FieldFiles == SelectSeq(files, LAMBDA f : f.path # OFile)
 TypeOK ==
   /\ phase \in Phases \cup {"Configure", "Done"}
   /\ exit \in {-1, 0, 1, 2}
-  /\ IsText(stdout) /\ IsText(out)
   /\ stderrNonEmpty \in BOOLEAN
-  /\ \A i \in 1..Len(files) : IsText(files[i].path) /\ IsText(files[i].data)
+  /\ phase = "Done" =>
+       /\ IsText(stdout) /\ IsText(out)
+       /\ \A i \in 1..Len(files) : IsText(files[i].path) /\ IsText(files[i].data)
   /\ \A i, j \in 1..Len(files) : i # j => files[i].path # files[j].path
   /\ done \subseteq Phases
   /\ fidx \in 0..3
